@@ -10,7 +10,7 @@ SEG    SegmentationIter::next yields cursor..X and then sets cursor = X; ends on
 import re
 import mirq
 import units
-from synq import Syn, walk, find, unparse, strip
+from synq import Syn, walk, find, unparse, strip, pat_names
 from formula import Evaluator, StructVal, Unknown, Panic, some
 from props.c12 import unit_rule
 
@@ -150,6 +150,7 @@ def run(ctx):
     # ---------------- SEG
     window_rule(ctx, syn)
     idxspace_rule(ctx, syn)
+    trim_rule(ctx, syn)
     r_seg = ctx.rule("C07.SEG", "SegmentationIter::next returns cursor..X and advances cursor to the same X; it stops only when cursor >= end")
     sg = syn.fn("next", self_ty="SegmentationIter", trait="Iterator")
     ctx.functions_analysed.add(sg.qual)
@@ -311,3 +312,67 @@ def idxspace_rule(ctx, syn):
                     ctx.report(r, "%s|%s[%s]" % (f.qual, base, lst), "%s indexes `%s` with a counter that runs over the length of the index list `self.%s`: the counter is a position in the selection, the selected indices are the list's *values* - items the selection skipped are used instead of the selected ones" % (f.qual, base, lst), f.file, ix.get("l"))
     r.notes.append("index lists: %s; counter loops over them: %d" % (dict((k, sorted(v)) for k, v in idxlists.items()), n))
     ctx.floor(r, sum(len(v) for v in idxlists.values()), 1, "index-list fields in api/text.rs")
+
+
+def trim_rule(ctx, syn):
+    """trim_text / trim_text_with evaluated from their syntax trees on every text of up to four characters over a
+    trimmable and a non-trimmable character: the offset they compute denotes exactly what str::trim_matches yields"""
+    import itertools
+    from formula import Evaluator, Unknown, Panic, StructVal, EnumVal
+    from props.c10 import closure_call
+    r = ctx.rule("C07.TRIM", "trim_text / trim_text_with compute an offset that is well-formed (begin <= end) and selects exactly the text that str::trim_matches returns, for every text of up to four characters (including texts that consist of trimmable characters only)")
+    n = 0
+    for name in ("trim_text", "trim_text_with"):
+        fs = [f for f in syn.fns if f.name == name and f.in_trait == "FindText" and f.body is not None]
+        if len(fs) != 1:
+            ctx.anchor_missing(r, "FindText::" + name)
+            continue
+        fn = fs[0]
+        ctx.functions_analysed.add(fn.qual)
+        # type inference the evaluator does not do: a counter that ends up in Cursor::EndAligned(..) is an isize
+        import copy
+        body = copy.deepcopy(fn.body)
+        signed = set()
+        for c_ in walk(body):
+            if c_.get("k") == "call" and unparse(c_["func"]).endswith("Cursor::EndAligned") and c_["args"] and strip(c_["args"][0]).get("k") == "path":
+                signed.add(strip(c_["args"][0])["path"][0])
+        for l_ in walk(body):
+            if l_.get("k") == "let" and l_.get("init") is not None and strip(l_["init"]).get("k") == "lit" and set(pat_names(l_["pat"])) & signed:
+                l_["init"] = {"k": "cast", "e": l_["init"], "ty": {"s": "isize"}, "l": l_.get("l")}
+        hooks = {}
+        hooks["text"] = lambda ev, recv, args, node, env: recv["text"] if isinstance(recv, StructVal) else NotImplemented
+        hooks["textlen"] = lambda ev, recv, args, node, env: len(recv["text"]) if isinstance(recv, StructVal) else NotImplemented
+        hooks["chars"] = lambda ev, recv, args, node, env: list(recv) if isinstance(recv, str) else NotImplemented
+        hooks["rev"] = lambda ev, recv, args, node, env: list(reversed(recv)) if isinstance(recv, list) else NotImplemented
+        hooks["contains"] = lambda ev, recv, args, node, env: (args[0] in recv) if isinstance(recv, list) else NotImplemented
+        hooks["call:Offset::new"] = lambda ev, recv, args, node, env: ("offset", args[0], args[1])
+        hooks["textselection"] = lambda ev, recv, args, node, env: args[0]
+        bad = None
+        try:
+            for k in range(0, 5):
+                for t in itertools.product(" a", repeat=k):
+                    text = "".join(t)
+                    me = StructVal("Text", {"text": text})
+                    if name == "trim_text":
+                        env = {"self": me, "chars": [" "]}
+                    else:
+                        env = {"self": me, "f": ("pyfn",)}
+                        hooks["call:f"] = lambda ev, recv, args, node, env: args[0] == " "
+                    res = Evaluator(hooks=hooks).run_body(body, env)
+                    n += 1
+                    if not (isinstance(res, tuple) and res and res[0] == "offset"):
+                        raise Unknown("result %r" % (res,))
+                    b_, e_ = res[1], res[2]
+                    bpos = int(b_.args[0]) if b_.name == "BeginAligned" else len(text) + int(b_.args[0])
+                    epos = int(e_.args[0]) if e_.name == "BeginAligned" else len(text) + int(e_.args[0])
+                    want = text.strip(" ")
+                    if not (0 <= bpos <= epos <= len(text)) and bad is None:
+                        bad = "%s on %r computes the offset %s:%s, i.e. %d..%d: not a range of the text (the call fails with InvalidOffset instead of returning the empty text)" % (name, text, b_, e_, bpos, epos)
+                    elif text[bpos:epos] != want and bad is None:
+                        bad = "%s on %r selects %r, str::trim_matches gives %r" % (name, text, text[bpos:epos], want)
+            r.hit(name, sample={"function": fn.qual, "texts_evaluated": n})
+            if bad:
+                ctx.report(r, name, bad, fn.file, fn.line)
+        except (Unknown, Panic) as e:
+            ctx.report(r, "unevaluated:" + name, "%s could not be evaluated (%s): that trimming agrees with str::trim_matches is not established" % (fn.qual, e), fn.file, fn.line)
+    ctx.floor(r, n, 60, "texts evaluated")
